@@ -18,3 +18,5 @@ def check(repo, rep, tier):
     rq.rule_argument_order(em, rep, 'C20.U4')
     rx.rule_derived_tables_follow(em, rep, 'C20.U5')
     rx.rule_lookups_agree(em, rep, 'C20.U6')
+    from .. import rules_state as rs
+    rs.rule_atoms_unify_by_name(em, rep, 'C20.U7')
